@@ -242,6 +242,8 @@ class Extractor:
                     truthy = 'false'
                 elif isinstance(v, ast.Name) and v.id == 'rpos':
                     truthy = 'true'   # a 2-tuple is truthy
+                elif ast.unparse(v) == 'rpos[1]' and s.get('rpos') is not None:
+                    truthy = '(negb (%s =? 0))' % s['rpos']   # an int is truthy iff non-zero
                 else:
                     self.fail(st, 'return value outside subset')
                 return self.result(s, truthy, st)
@@ -617,6 +619,21 @@ class Prop(fw.PropBase):
                             cs = self.chic_case(c, reverse, clip, tail, mx, 9 + clip + tail, rng.randint(50, 90000))
                             if cs and (c[1], c[2]) == (True, False):   # check_motif / allow_shift do not exist for chic
                                 cases.append(cs)
+        # 1b. directed: motif / overhang at the very start of the contig (site coordinate 0); the mirrored run
+        #     puts it at the contig end
+        for c in self.ALL_CFG:
+            for clip in range(0, 7):
+                for lost in (False, True):
+                    cs = self.nla_case(c, False, clip, 0, lost, 'CATG', 8 + clip, 0)
+                    if cs:
+                        cases.append(cs)
+                    cs = self.nla_case(c, True, clip, 0, lost, 'CATG', 8 + clip, 100000 - 4)
+                    if cs:
+                        cases.append(cs)
+                if (c[1], c[2]) == (True, False):
+                    for mx in ('scCHIC384C8U3', None):
+                        cases.append(self.chic_case(c, False, clip, 0, mx, 9 + clip, 1))
+                        cases.append(self.chic_case(c, True, clip, 0, mx, 9 + clip, 100000 - 2))
         n_exh = len(cases)
         # 2. random: longer reads, indel CIGARs, pairs, qcfail input, motif errors
         N = 3000 if quick else 150000
@@ -658,6 +675,34 @@ class Prop(fw.PropBase):
                     idxs.append(len(cases))
                     cases.append(cs)
             self.libs.append({'id': li, 'kind': kind, 'c': list(c), 'idx': idxs})
+        # 2c. molecules: 2-4 fragments of one cut (ragged within the assignment radius for chic) plus an unrelated
+        #     fragment, tagged through MoleculeIterator + write_tags, as given and mirrored
+        self.mols = []
+        for mi in range(60 if quick else 600):
+            kind = 'chic' if mi % 4 else 'nla'
+            c = rng.choice([c for c in self.ALL_CFG if kind == 'nla' or (c[1], c[2]) == (True, False)])
+            radius = rng.choice([0, 1, 2, 3, 5]) if kind == 'chic' else None
+            reverse = rng.random() < 0.5
+            base = rng.randint(200, 90000)
+            mx = rng.choice(self.MX)
+            pair = rng.choice(['none', 'opposite'])
+            idxs = []
+            for k in range(rng.randint(2, 4)):
+                clip = rng.choice([0, 0, 1, 2, 3]) if not c[0] else 0
+                if kind == 'chic':
+                    cs = self.chic_case(c, reverse, clip, rng.choice([0, 0, 2]), mx, rng.randint(12, 40),
+                                        base + rng.randint(0, radius), pair=pair)
+                else:
+                    cs = self.nla_case(c, reverse, clip, rng.choice([0, 0, 2]), False, 'CATG', rng.randint(12, 40), base, pair=pair)
+                idxs.append(len(cases))
+                cases.append(cs)
+            far = base + rng.choice([-1, 1]) * rng.randint(30, 60)
+            cs = self.chic_case(c, reverse, 0, 0, mx, 20, far, pair=pair) if kind == 'chic' else \
+                self.nla_case(c, reverse, 0, 0, False, 'CATG', 20, far, pair=pair)
+            cs['reads'][0]['umi'] = 'TTT'
+            idxs.append(len(cases))
+            cases.append(cs)
+            self.mols.append({'id': mi, 'kind': kind, 'c': list(c), 'radius': radius, 'idx': idxs})
         # 3. every case also mirrored onto the reverse-complemented reference
         L = 100000
         mirrored = []
@@ -675,6 +720,16 @@ class Prop(fw.PropBase):
                     out.append(json.load(open(os.path.join(d, f))))
         return out
 
+    def mol_payload(self, cases, mirrored):
+        out = []
+        for m in self.mols:
+            cfg = cfg_kwargs(m['kind'], m['c'])
+            if m['radius'] is not None:
+                cfg['assignment_radius'] = m['radius']
+            for src in (cases, mirrored):
+                out.append({'kind': m['kind'], 'cfg': cfg, 'cases': [self.payload_case(src[k]) for k in m['idx']]})
+        return out
+
     def payload_case(self, cs):
         return {'kind': cs['kind'], 'cfg': cfg_kwargs(cs['kind'], cs['c']), 'reads': cs['reads']}
 
@@ -687,8 +742,9 @@ class Prop(fw.PropBase):
         self.L, self.off, self.n_plain = L, off, len(cases)
         bam_payload = [{'id': lib['id'], 'kind': lib['kind'], 'cfg': cfg_kwargs(lib['kind'], lib['c']),
                         'cases': [self.payload_case(cases[k]) for k in lib['idx']]} for lib in self.libs]
-        out = fw.run_impl('impl_c09.py', {'cases': [self.payload_case(c) for c in allc], 'bam': bam_payload})
-        res, self.bam_res = out['cases'], out['bam']
+        out = fw.run_impl('impl_c09.py', {'cases': [self.payload_case(c) for c in allc], 'bam': bam_payload,
+                                          'mol': self.mol_payload(cases, mirrored)})
+        res, self.bam_res, self.mol_res = out['cases'], out['bam'], out['mol']
         self.allc, self.res = allc, res
         impl, problems = [], []
         for cs, r in zip(allc, res):
@@ -768,6 +824,35 @@ class Prop(fw.PropBase):
                     dis.append({'what': 'fragment the model rejects was emitted by MoleculeIterator',
                                 'input': self.payload_case(cases[k]), 'model': m, 'impl': got})
         self.cov['bam_roundtrip_fragments'] = nbam
+        # molecules: DS of every fragment after write_tags, and the molecule's cut site, against the model
+        # (the grouping and the order in which fragments were added are taken from the implementation)
+        nmol, m3_in, m3_exp, m3_ctx = 0, [], [], []
+        for j, mr in enumerate(self.mol_res):
+            m = self.mols[j // 2]
+            if 'error' in mr:
+                dis.append({'what': 'molecule stream raised', 'impl': mr['error'], 'input': m})
+                continue
+            for mol in mr['molecules']:
+                mem = [x for x in mol['members'] if x['site'] is not None]
+                if len(mem) != len(mol['members']) or not mem:
+                    continue
+                nmol += 1
+                frs = [[x['strand'], x['site']] for x in mem]
+                ds = [mr['tags'][x['name']]['R1']['DS'] for x in mem]
+                if m['kind'] == 'chic':
+                    m3_in.append((3, [m['radius'], frs])); m3_exp.append(ds)
+                else:
+                    m3_in.append((3, [0, frs])); m3_exp.append(ds)
+                m3_in.append((4, [0, frs])); m3_exp.append([] if mol['site'] is None else [mol['site']])
+                m3_ctx += [(m, mol), (m, mol)]
+        for mode in (3, 4):
+            sel = [i for i, x in enumerate(m3_in) if x[0] == mode]
+            outm = fw.run_model('C09', mode, [m3_in[i][1] for i in sel]) if sel else []
+            for i, o in zip(sel, outm):
+                if o != m3_exp[i]:
+                    dis.append({'what': 'molecule-level DS after write_tags / molecule cut site differs from the model (mode %d)' % mode,
+                                'input': {'scenario': m3_ctx[i][0], 'molecule': m3_ctx[i][1]}, 'model': o, 'impl': m3_exp[i]})
+        self.cov['molecules_validated'] = nmol
         # the Coq simulator / mirror against the independent Python ones
         sim_in, sim_exp = [], []
         for cs in truth:
@@ -851,8 +936,9 @@ class Prop(fw.PropBase):
             self.L, self.off, self.n_plain = L, len(corpus), len(cases)
             bam_payload = [{'id': lib['id'], 'kind': lib['kind'], 'cfg': cfg_kwargs(lib['kind'], lib['c']),
                             'cases': [self.payload_case(cases[k]) for k in lib['idx']]} for lib in self.libs]
-            out = fw.run_impl('impl_c09.py', {'cases': [self.payload_case(c) for c in self.allc], 'bam': bam_payload})
-            self.res, self.bam_res = out['cases'], out['bam']
+            out = fw.run_impl('impl_c09.py', {'cases': [self.payload_case(c) for c in self.allc], 'bam': bam_payload,
+                                              'mol': self.mol_payload(cases, mirrored)})
+            self.res, self.bam_res, self.mol_res = out['cases'], out['bam'], out['mol']
         if getattr(self, 'impl', None) is None:
             self.impl = [canon_impl(cs, r)[0] for cs, r in zip(self.allc, self.res)]
         best = {}
@@ -928,6 +1014,39 @@ class Prop(fw.PropBase):
                               % (got, exp), got, exp)
                 elif got is not None:
                     offer('bam:%s:reject' % cs['kind'], cs, 'fragment without CATG at its start was emitted with tags %r' % (got,), got, None)
+        # molecule-level mirror relation: the same fragment set and its mirror image through
+        # MoleculeIterator + write_tags must give mirrored DS / flipped RS on every read and as many molecules
+        mres = getattr(self, 'mol_res', [])
+        for j in range(0, len(mres) - 1, 2):
+            m, a, b = self.mols[j // 2], mres[j], mres[j + 1]
+            w = 4 if m['kind'] == 'nla' else 1
+            cases_in = [self.payload_case(self.allc[off + k]) for k in m['idx']]
+            inp = {'kind': m['kind'], 'assignment_radius': m['radius'], 'cfg': cfg_kwargs(m['kind'], m['c']),
+                   'fragments': cases_in, 'mirror_L': L}
+            sz = sum(len(c['reads'][0]['seq']) for c in cases_in)
+            key = 'mol:%s:mirror' % m['kind']
+            bad = None
+            if 'error' in a or 'error' in b:
+                bad = 'molecule tagging raised: %r / %r' % (a.get('error'), b.get('error'))
+            elif len(a['molecules']) != len(b['molecules']):
+                bad = 'the two orientations deduplicate differently: %d vs %d molecules' % (len(a['molecules']), len(b['molecules']))
+            else:
+                for name in sorted(a['tags']):
+                    for rd, oa in a['tags'][name].items():
+                        ob = b['tags'].get(name, {}).get(rd)
+                        exp_ds = None if oa['DS'] is None else L - w - oa['DS']
+                        exp_rs = None if oa['RS'] is None else 1 - oa['RS']
+                        if ob is None or ob['DS'] != exp_ds or ob['RS'] != exp_rs:
+                            bad = ('%s molecule set tagged through MoleculeIterator + write_tags (assignment_radius=%r): read %s/%s has DS=%r RS=%r, '
+                                   'its mirror image has DS=%r RS=%r, expected the mirrored DS=%r RS=%r'
+                                   % (m['kind'], m['radius'], name, rd, oa['DS'], oa['RS'], None if ob is None else ob['DS'],
+                                      None if ob is None else ob['RS'], exp_ds, exp_rs))
+                            break
+                    if bad:
+                        break
+            if bad and (key not in best or sz < best[key][0]):
+                best[key] = (sz, {'key': key, 'what': bad, 'input': inp,
+                                  'impl': {'original': a.get('tags'), 'mirrored': b.get('tags')}})
         for p in getattr(self, 'problems', [])[:1]:
             self.witnesses.append({'key': 'observation', 'what': '; '.join(p['problems']), 'input': p['input']})
         for key in sorted(best):
